@@ -117,6 +117,9 @@ reg = {
         # the allocation records written by a durable commit (fragment of flush_data_allocated_pages)
         "allocrec": {"overlay": "units/allocrec.ovl", "canaries": ["canary_allocrec"],
                      "helpers": ["lock", "open_system_table", "into_iter", "collect", "next", "take_unpersisted_allocations", "write_allocated_pages_entry"]},
+        # the catalog walk of compaction: relocated tables keep their entry count
+        "relocate": {"overlay": "units/relocate.ovl", "canaries": ["canary_relocate"],
+                     "helpers": ["clone", "set_header", "get_length", "relocate_tree", "to_string", "value", "key", "next", "range", "relocate", "get", "insert"]},
         "types_sep": {"overlay": "units/types_sep.ovl", "canaries": ["canary_types_sep"], "helpers": ["common_prefix_len"]},
         # the page-level checksum walk over an abstract page store
         "merkle": {"overlay": "units/merkle.ovl", "canaries": ["canary_merkle"],
@@ -282,11 +285,12 @@ P["C07"] = {
 P["C09"] = {
     "level": "proof",
     "verus": [{"unit": "mmiter", "functions": ["LeafKeyIter::next_key", "LeafKeyIter::next_key_back"]},
-              {"unit": "tableverify", "functions": ["verify_tree_and_subtree_checksums"]}],
+              {"unit": "tableverify", "functions": ["verify_tree_and_subtree_checksums"]},
+              {"unit": "relocate", "functions": ["TableTreeMut::relocate_tables"]}],
     "kani": [K["C09-K1"], K["C09-K2"]],
-    "assumptions": ["M2 (mmiter unit): key_at(n) returns the n-th value of the inline collection iff n is below the number of values (its body builds a LeafAccessor over the page bytes; layout: bounded Kani harness C09-K2)"],
-    "explanation": "Kernel: (V) the REAL double-ended cursor over the values of a key stored inline (LeafKeyIter::next_key / next_key_back): the values not yet yielded are exactly the indices between the two cursors, every call yields the smallest / largest of them and removes exactly it, and None is returned exactly when none is left - so every value is yielded once whatever mixture of next() and next_back() consumes them, for every collection size; (W) the REAL integrity walk of a multimap table (verify_tree_and_subtree_checksums): every per-key subtree of every page is verified, as a tree keyed by the table's value width; (K) the per-key collection record: subtree form round trip (complete) and inline form (bounded).",
-    "not_decided": "multimap operation sequences (insert / remove / remove_all), inline <-> subtree transitions, len(), the subtree cursor (btree_cursor.rs), compaction of multimap tables",
+    "assumptions": ["L1 (relocate unit): a table definition is (root, entry count); relocate_tree does not change the count and returns an uninterpreted function of the definition; catalog names are unique; the staged updates are a map from name to (root, count, dirty)", "M2 (mmiter unit): key_at(n) returns the n-th value of the inline collection iff n is below the number of values (its body builds a LeafAccessor over the page bytes; layout: bounded Kani harness C09-K2)"],
+    "explanation": "Kernel: (V) the REAL double-ended cursor over the values of a key stored inline (LeafKeyIter::next_key / next_key_back): the values not yet yielded are exactly the indices between the two cursors, every call yields the smallest / largest of them and removes exactly it, and None is returned exactly when none is left - so every value is yielded once whatever mixture of next() and next_back() consumes them, for every collection size; (W) the REAL integrity walk of a multimap table (verify_tree_and_subtree_checksums): every per-key subtree of every page is verified, as a tree keyed by the table's value width; (C) the REAL catalog walk of compaction (TableTreeMut::relocate_tables): a table (multimap or not) whose tree was moved is staged with its new root and the entry count it had - staged earlier in the transaction, else recorded in the catalog - so compaction never changes len(); (K) the per-key collection record: subtree form round trip (complete) and inline form (bounded).",
+    "not_decided": "multimap operation sequences (insert / remove / remove_all), inline <-> subtree transitions, how len() is maintained by insert / remove, the subtree cursor (btree_cursor.rs), relocate_subtrees",
 }
 P["C11"] = {
     "level": "proof",
